@@ -681,6 +681,12 @@ pub fn corpus() -> Vec<Scenario> {
         sc("abandon-one-of-two-holders-accepted", vec![Register(0), Register(1), Add(1, Reject), Notify(1), Down(0, true), Notify(2), Abandon(1), Restart]),
         // a tower caught lying on the retry path keeps its pending data: it must stay flagged after a restart
         sc("wrong-signer-on-retry-then-restart", vec![Register(0), Register(1), Down(0, true), Notify(1), Notify(2), Add(0, BadSig), Down(0, false), Retry(0), Restart, Notify(3), Retry(0)]),
+        // a repeated revocation after more towers were registered: the towers that already answered are skipped, the
+        // new ones must still get it (the client goes through its towers in the order of a hash map, which changes from
+        // process to process: three towers, three runs)
+        Scenario { name: "repeated-revocation-reaches-new-towers-a".into(), towers: 3, opts: o, events: vec![Register(0), Notify(0), Register(1), Register(2), Notify(0), Notify(1), Restart] },
+        Scenario { name: "repeated-revocation-reaches-new-towers-b".into(), towers: 3, opts: o, events: vec![Register(1), Add(1, Reject), Notify(0), Register(0), Register(2), Notify(0), Restart] },
+        Scenario { name: "repeated-revocation-reaches-new-towers-c".into(), towers: 3, opts: o, events: vec![Register(2), Notify(0), Notify(1), Register(0), Register(1), Notify(1), Notify(0), Restart] },
         sc("kill-with-pending", vec![Register(0), Register(1), Down(0, true), Notify(0), Notify(1), Restart, Down(0, false), Restart, Notify(2)]),
         sc("register-replies", vec![PEv::Reg(0, RegMode::BadSig), Register(0), PEv::Reg(0, RegMode::NonJson), Register(0), PEv::Reg(0, RegMode::ApiError), Register(0), PEv::Reg(0, RegMode::Accept), Register(0), PEv::Reg(0, RegMode::Same), Register(0), PEv::Reg(0, RegMode::SameExpiry), Register(0), Down(0, true), Register(0), Notify(0)]),
         Scenario { name: "auto-retry-delivers".into(), towers: 1, opts: (2, 3, 1), events: vec![Register(0), Down(0, true), Notify(0), Notify(1), Down(0, false), AwaitDelivered(0, 14)] },
